@@ -66,6 +66,9 @@ type Tree struct {
 	Byz     map[string]bool
 	P0      *pset
 	Changes int
+	// trees of the family "header fields at the integer extremes" (extreme.go)
+	Genesis uint32 // genesis height (0 for the other families)
+	Extreme int    // accepted headers claiming a maxHeightGenerated above their height
 }
 
 func (t *Tree) branchOps(tip *block) []string {
@@ -106,8 +109,18 @@ func atoi(s string) int {
 
 // GenTree builds one fork tree.
 func GenTree(rng *rand.Rand, maxBlocks int, allowLow bool) *Tree {
+	return genTree(rng, maxBlocks, allowLow, nil)
+}
+
+// genTree: x == nil gives the trees of GenTree (same random stream); x != nil the family with
+// extreme genesis heights / batch sizes / Byzantine claims (extreme.go).
+func genTree(rng *rand.Rand, maxBlocks int, allowLow bool, x *extremes) *Tree {
 	nv := 3 + rng.Intn(5)
 	batch := nv + rng.Intn(3)
+	genesis := uint32(0)
+	if x != nil {
+		nv, batch, genesis = x.shape(rng, nv, maxBlocks)
+	}
 	vals := make([]*validator, nv)
 	var total uint64
 	for i := range vals {
@@ -138,19 +151,25 @@ func GenTree(rng *rand.Rand, maxBlocks int, allowLow bool) *Tree {
 	if byzW+total >= pc+pv {
 		low = true
 	}
-	t := &Tree{Low: low, Desc: fmt.Sprintf("nv=%d W=%d byz=%d pv=%d pc=%d", nv, total, byzW, pv, pc)}
+	t := &Tree{Low: low, Desc: fmt.Sprintf("nv=%d W=%d byz=%d pv=%d pc=%d", nv, total, byzW, pv, pc), Genesis: genesis}
+	if x != nil {
+		t.Desc += fmt.Sprintf(" batch=%d genesis=%d", batch, genesis)
+	}
 	parts, keys := []string{}, []string{}
 	for _, v := range vals {
 		parts = append(parts, fmt.Sprintf("%s:%d", corr.Hex(v.addr), v.weight))
 		keys = append(keys, corr.Hex(v.addr))
 	}
-	t.Setup = []string{fmt.Sprintf("reset %d 0", batch), fmt.Sprintf("setparams %d %d %s", pc, pc, strings.Join(parts, ",")), "setkeys " + strings.Join(keys, ",")}
+	t.Setup = []string{fmt.Sprintf("reset %d %d", batch, genesis), fmt.Sprintf("setparams %d %d %s", pc, pc, strings.Join(parts, ",")), "setkeys " + strings.Join(keys, ",")}
 	nBlocks := 3 + rng.Intn(maxBlocks)
 	root := (*block)(nil)
 	_ = root
 	tips := map[*block]bool{}
 	var all []*block
-	for len(all) < nBlocks {
+	for tries := 0; len(all) < nBlocks; tries++ {
+		if x != nil && tries > 30*nBlocks {
+			break // every tip sits at height 2^32-2: no block can follow
+		}
 		v := vals[rng.Intn(nv)]
 		// choose the parent
 		var parent *block
@@ -176,22 +195,30 @@ func GenTree(rng *rand.Rand, maxBlocks int, allowLow bool) *Tree {
 			}
 		}
 		var ops []string
-		height := uint32(1)
+		height := genesis + 1
 		if parent != nil {
 			ops = t.branchOps(parent)
 			height = parent.h.height + 1
 		} else {
 			ops = t.Setup
 		}
+		if height == 0 {
+			continue // (extreme family) parent at 2^32-1: cannot happen, the block at 2^32-1 is always rejected
+		}
 		node := replay(ops)
 		mhp, _, _ := node.Heights()
 		mhg := v.maxGen
 		if v.byz {
-			switch rng.Intn(3) {
-			case 0:
-				mhg = uint32(rng.Intn(int(height) + 1))
-			case 1:
-				mhg = 0
+			if x != nil && rng.Intn(2) == 0 {
+				// a Byzantine validator may claim anything
+				mhg = bftsim.PickExtreme(rng, height, 3*batch)
+			} else {
+				switch rng.Intn(3) {
+				case 0:
+					mhg = uint32(rng.Intn(int(height) + 1))
+				case 1:
+					mhg = 0
+				}
 			}
 		}
 		h := hdr{height: height, mhg: mhg, mhp: mhp, gen: v.addr}
@@ -231,6 +258,9 @@ func GenTree(rng *rand.Rand, maxBlocks int, allowLow bool) *Tree {
 		if height > v.maxGen {
 			v.maxGen = height
 		}
+		if h.mhg > h.height {
+			t.Extreme++
+		}
 	}
 	t.Blocks = all
 	for _, b := range all {
@@ -257,9 +287,10 @@ func CheckSafety(t *Tree) (conflict string, finalized int) {
 // checkSafetyPair also returns the indices (in t.Tips) of the two conflicting views.
 func checkSafetyPair(t *Tree) (conflict string, finalized int, ti, tj int) {
 	type view struct {
-		chain []*block // index = height-1
+		chain []*block // index = height-genesis-1
 		fin   uint32
 	}
+	g := t.Genesis
 	var views []view
 	for _, tip := range t.Tips {
 		n := replay(t.branchOps(tip))
@@ -270,8 +301,8 @@ func checkSafetyPair(t *Tree) (conflict string, finalized int, ti, tj int) {
 			chain = append([]*block{b}, chain...)
 		}
 		views = append(views, view{chain: chain, fin: mhpc})
-		if int(mhpc) > finalized {
-			finalized = int(mhpc)
+		if int(mhpc-g) > finalized {
+			finalized = int(mhpc - g) // blocks finalized above genesis
 		}
 	}
 	for i := range views {
@@ -280,8 +311,8 @@ func checkSafetyPair(t *Tree) (conflict string, finalized int, ti, tj int) {
 			if views[j].fin < m {
 				m = views[j].fin
 			}
-			for h := uint32(1); h <= m; h++ {
-				if views[i].chain[h-1] != views[j].chain[h-1] {
+			for h := g + 1; h <= m && h > g; h++ {
+				if views[i].chain[h-g-1] != views[j].chain[h-g-1] {
 					return fmt.Sprintf("%s: branches of tips #%d and #%d finalize different blocks at height %d (finalized heights %d and %d)", t.Desc, t.Tips[i].id, t.Tips[j].id, h, views[i].fin, views[j].fin), finalized, i, j
 				}
 			}
@@ -328,6 +359,23 @@ func (prop) Generate(rng *rand.Rand, tier string) []corr.Case {
 			cases = append(cases, corr.Case{Ops: t.branchOps(tip), Tag: "branch:" + cl})
 		}
 	}
+	// trees with genesis heights, batch sizes and Byzantine claims at the integer extremes
+	// (extreme.go); own random stream, generated last
+	xrng := derivedRng(cases)
+	nx := 10
+	if tier == "thorough" {
+		nx = 300
+	}
+	for i := 0; i < nx; i++ {
+		t := GenExtremeTree(xrng, 24)
+		cl := t.Class() + "+extremes"
+		for k, tip := range t.tipsExtremeFirst() {
+			if k >= 3 {
+				break
+			}
+			cases = append(cases, corr.Case{Ops: t.branchOps(tip), Tag: "branch:" + cl})
+		}
+	}
 	return cases
 }
 
@@ -354,6 +402,9 @@ func (prop) RunImpl(c corr.Case) ([]string, []corr.Fail) {
 	if node != nil {
 		node.Close()
 	}
+	// the votes implied by every single header of the branch (bftsim/votes.go): at most the generator's
+	// weight per height, nothing at or below its maxHeightGenerated, nothing when maxHeightGenerated >= height
+	fails = append(fails, bftsim.CheckVotes(c.Ops, out)...)
 	return out, fails
 }
 
@@ -365,11 +416,15 @@ func (prop) Classify(c corr.Case, out []string) string {
 	if i := strings.Index(c.Tag, ":"); i >= 0 && (strings.HasPrefix(c.Tag, "branch:") || strings.HasPrefix(c.Tag, "witness:")) {
 		cov = c.Tag[i+1:] + "/"
 	}
+	genesis := "0"
+	if w := strings.Fields(c.Ops[0]); len(w) > 2 {
+		genesis = w[2]
+	}
 	// the last op that dumps the store
 	for i := len(out) - 1; i >= 0; i-- {
 		f := strings.Fields(out[i])
 		if len(f) > 2 && f[0] == "ok" {
-			if f[2] != "0" {
+			if f[2] != genesis {
 				return cov + "finalized"
 			}
 			break
@@ -457,6 +512,7 @@ func (prop) Extra(rng *rand.Rand, tier string) corr.ExtraResult {
 	res.Notes["trees_with_forks"] = forks
 	res.Notes["trees_with_low_threshold"] = lowTrees
 	extraDyn(rng, tier, &res)
+	extraExtreme(rng, tier, &res)
 	return res
 }
 
